@@ -228,7 +228,22 @@ TOKENS = {
     "fd3": (0, "frag", b"\xd3"),
     "fd300": (0, "frag", b"\xd3\x00"),
 }
-FRAME_TOKENS = [k for k, v in TOKENS.items() if v[1] == "frame"]
+# frames at the length boundaries of each protocol's framing (kept out of the deep enumerations)
+_RT = bytes([0x3E, 0xD0])
+LONG_TOKENS = {
+    "R255": (ref.RTCM, "frame", ref.rtcm_frame(_RT + bytes(253))),
+    "R256": (ref.RTCM, "frame", ref.rtcm_frame(_RT + bytes(254))),
+    "R511": (ref.RTCM, "frame", ref.rtcm_frame(_RT + bytes(509))),
+    "R512": (ref.RTCM, "frame", ref.rtcm_frame(_RT + bytes(510))),
+    "R1023": (ref.RTCM, "frame", ref.rtcm_frame(_RT + bytes(i % 251 for i in range(1021)))),
+    "U255": (ref.UBX, "frame", ref.frame(0x99, 0x01, bytes(i % 251 for i in range(255)))),
+    "U256": (ref.UBX, "frame", ref.frame(0x99, 0x01, bytes(i % 251 for i in range(256)))),
+    "U4096": (ref.UBX, "frame", ref.frame(0x99, 0x02, bytes(4096))),
+    "Nlong": (ref.NMEA, "frame", ref.nmea_sentence("GNTXT,01,01,02," + "x" * 200)),
+}
+TOKENS.update(LONG_TOKENS)
+LONG_NAMES = list(LONG_TOKENS)
+FRAME_TOKENS = [k for k, v in TOKENS.items() if v[1] == "frame" and k not in LONG_TOKENS]
 NOISE_TOKENS = [k for k, v in TOKENS.items() if v[1] == "noise"]
 FRAG_TOKENS = [k for k, v in TOKENS.items() if v[1] == "frag"]
 
@@ -256,13 +271,25 @@ def token_verdict(name, cfg):
 
 
 def verdict_table(cfg):
-    return {t: token_verdict(t, cfg) for t in FRAME_TOKENS}
+    return {t: token_verdict(t, cfg) for t in FRAME_TOKENS + LONG_NAMES}
 
 
 def token_seqs(k, alphabet):
     for n in range(0, k + 1):
         for t in itertools.product(alphabet, repeat=n):
             yield t
+
+
+def long_seqs(neighbours):
+    """(a?, L, b?) for every boundary-length token L and every neighbour a, b (None = absent)."""
+    nb = [None] + list(neighbours)
+    for L in LONG_NAMES:
+        for a in nb:
+            for b in nb:
+                yield tuple(x for x in (a, L, b) if x is not None)
+
+
+LONG_NEIGHBOURS = ["Uack", "Ubad", "N1", "R1", "Rbad", "n00", "nabc"]
 
 
 def seq_bytes(seq):
